@@ -49,6 +49,11 @@ THEOREMS = [
     "Typedpy.C03.runB_hook_partial",
     "Typedpy.C03.refCall_facts",
     "Typedpy.C03.delitem_skips_hook",
+    "Typedpy.C03.nested_depth2_example",
+    "Typedpy.C03.fixed_nested_bound_today",
+    "Typedpy.C03.fixed_delitem_hook_today",
+    "Typedpy.C03.fixed_full_statement_current",
+    "Typedpy.C03.fixed_hook_invariant_current",
 ]
 RULE = ("mutable (and field-immutable) classes biased to Array/Deque/Map fields incl. nested typed wrappers; start "
         "instance valid; histories of <=6 (quick) / <=20 (thorough) ops drawn from setattr(valid|invalid|None), del, "
@@ -58,11 +63,17 @@ RULE = ("mutable (and field-immutable) classes biased to Array/Deque/Map fields 
         "establish; the same predicate is the model's hookOk oracle); plus an oracle-only stream: classes over "
         "DateString/TimeString/DateField/DateTime/IPV4/HostName/JSONString/DecimalNumber/Optional fields (checks made after "
         "the value is stored), with and without _enable_undefined_value and a multi-field hook, assignments of 14 "
-        "ill-typed / ill-formatted values; non-trivial = >=1 op; distinct by sha256 of the case line")
+        "ill-typed / ill-formatted values; plus the extended stream (gen_cases_ext, own draws): the same classes with slice "
+        "assignment / deletion (every combination of omitted / negative / out-of-range bounds and steps incl. 0), sort(key in "
+        "{none, neg, abs, const}, reverse), wrapper references kept across operations (take / callRef / assignRef, stale or "
+        "live, compared with the model after every op), the directed convert-then-hand-back pattern for converting item "
+        "fields, format-checking string fields (DateString in two formats, TimeString, IPV4, HostName, JSONString; 62 pool "
+        "strings + non-strings) as scalar and as Array items, and hooks of the family 'one of these fields must hold a value' "
+        "with None-assignments / deletions that try to clear them; non-trivial = >=1 op; distinct by sha256 of the case line")
 ASSUMPTIONS = [
-    "every op re-fetches the field value through the instance (stale wrapper references kept across a reassigning op are outside the claim)",
+    "plain ops re-fetch the field value through the instance; references the caller keeps are explicit operations of the machine (take / callRef / assignRef)",
     "in-place mutation of values handed out by reference by design (Set, Tuple elements, Anything, untyped Array/Map contents) is outside the claim",
-    "__validate__ hooks are an oracle of the model (hookOk, universally quantified in the theorems); date/time/format fields are exercised on the real code only (postcheck stream)",
+    "__validate__ hooks are an oracle of the model (hookOk, universally quantified in the theorems); string format fields enter the model through the regex oracle (synthetic tokens answered by suites/formats.py); DateField/DateTime/DecimalNumber are exercised on the real code only (postcheck stream)",
 ]
 
 
